@@ -154,9 +154,9 @@ Proof.
   - destruct (alloc_mids (wrap_int (g + 1)) rest) as [g2 rest'] eqn:E. cbn [snd]. constructor.
     + split; [reflexivity|]. intro H. unfold mid_unset in U. apply String.eqb_eq in U. contradiction.
     + specialize (IH (wrap_int (g + 1))). rewrite E in IH. exact IH.
-  - destruct (alloc_mids (bump g (t_mid t)) rest) as [g2 rest'] eqn:E. cbn [snd]. constructor.
+  - destruct (alloc_mids g rest) as [g2 rest'] eqn:E. cbn [snd]. constructor.
     + apply same_tr_refl.
-    + specialize (IH (bump g (t_mid t))). rewrite E in IH. exact IH.
+    + specialize (IH g). rewrite E in IH. exact IH.
 Qed.
 
 Lemma srd_loop_keeps secs : forall l, keeps (strip l) (strip (fst (srd_loop secs l))).
@@ -436,20 +436,6 @@ Proof.
 Qed.
 
 (* ---------- fresh mids ---------- *)
-(* no increment of the numbering loop leaves the int range *)
-Fixpoint alloc_nowrap (g : Z) (l : list tr) : bool :=
-  match l with
-  | [] => true
-  | t :: rest =>
-      if mid_unset t then in_int (g + 1) && alloc_nowrap (g + 1) rest
-      else alloc_nowrap (bump g (t_mid t)) rest
-  end.
-
-Lemma bump_ge g m : (g <= bump g m)%Z.
-Proof. unfold bump. destruct (atoi m) as [n|]; [|lia]. destruct (Z.gtb n g) eqn:E; [|lia]. apply Z.gtb_lt in E. lia. Qed.
-Lemma bump_covers g m n : atoi m = Some n -> (n <= bump g m)%Z.
-Proof. unfold bump. intros ->. destruct (Z.gtb n g) eqn:E; [lia|]. rewrite Z.gtb_ltb in E. apply Z.ltb_ge in E. exact E. Qed.
-
 Lemma alloc_mids_fresh l : forall g m i t t',
   alloc_nowrap g l = true ->
   (forall n, atoi m = Some n -> (n <= g)%Z) ->
@@ -466,48 +452,37 @@ Proof.
     + apply (IH (g + 1)%Z m i t t'); auto.
       * intros n Hn0. specialize (Hm n Hn0). lia.
       * rewrite E. exact Hn'.
-  - destruct (alloc_mids (bump g (t_mid x)) rest) as [g2 rest'] eqn:E. cbn [snd] in Hn'.
+  - destruct (alloc_mids g rest) as [g2 rest'] eqn:E. cbn [snd] in Hn'.
     destruct i as [|i]; cbn in Hn, Hn'.
     + injection Hn as <-. unfold mid_unset in U. rewrite Hunset in U. discriminate.
-    + apply (IH (bump g (t_mid x)) m i t t'); auto.
-      * intros n Hn0. specialize (Hm n Hn0). pose proof (bump_ge g (t_mid x)). lia.
-      * rewrite E. exact Hn'.
+    + apply (IH g m i t t'); auto. rewrite E. exact Hn'.
 Qed.
 
-Lemma bump_remote_ge g d : (g <= bump_remote g d)%Z.
-Proof.
-  unfold bump_remote. destruct d as [d|]; [|lia]. revert g. induction (r_secs d) as [|r rest IH]; intro g; cbn [fold_left]; [lia|].
-  destruct (String.eqb (r_mid r) ""); [apply IH|]. pose proof (bump_ge g (r_mid r)). specialize (IH (bump g (r_mid r))). lia.
-Qed.
-
-Lemma bump_remote_covers d : forall g r n,
-  In r (r_secs d) -> atoi (r_mid r) = Some n -> (n <= bump_remote g (Some d))%Z.
-Proof.
-  unfold bump_remote. induction (r_secs d) as [|x rest IH]; intros g r n Hin Hn; [destruct Hin|].
-  cbn [fold_left]. destruct Hin as [<-|Hin].
-  - assert (Hne : String.eqb (r_mid x) "" = false).
-    { destruct (String.eqb (r_mid x) "") eqn:E; auto. apply String.eqb_eq in E. rewrite E in Hn. discriminate. }
-    rewrite Hne. pose proof (bump_covers g _ _ Hn).
-    pose proof (bump_remote_ge (bump g (r_mid x)) (Some {| r_secs := rest; r_group := None |})) as Hge.
-    unfold bump_remote in Hge. cbn [r_secs] in Hge. lia.
-  - destruct (String.eqb (r_mid x) ""); eapply IH; eauto.
-Qed.
-
-Definition offer_nowrap (s : st) : bool :=
-  alloc_nowrap (bump_remote (gmid s) (cur_remote s)) (trs s).
-
-(* a mid CreateOffer hands out differs from every mid of the current remote
-   description, as long as greaterMid does not overflow *)
-Lemma fresh_mid_not_in_current_remote_lemma s i t t' r :
+(* a mid CreateOffer hands out differs from every mid of the current and of the
+   pending remote description, as long as greaterMid does not overflow *)
+Lemma fresh_mid_not_in_remote_lemma s i t t' r :
   offer_nowrap s = true ->
   nth_error (trs s) i = Some t -> t_mid t = "" ->
   nth_error (trs (offer_alloc s)) i = Some t' ->
-  In r (remote_secs (cur_remote s)) -> t_mid t' <> r_mid r.
+  In r (remote_secs (cur_remote s)) \/ In r (remote_secs (pend_remote s)) -> t_mid t' <> r_mid r.
 Proof.
   intros Hnw Hn Hunset Hn' Hr. rewrite offer_alloc_trs in Hn'.
   eapply alloc_mids_fresh; eauto.
-  intros n Hnum. destruct (cur_remote s) as [d|]; [|destruct Hr].
-  eapply bump_remote_covers; eauto.
+  intros n Hnum. destruct Hr as [Hr|Hr].
+  - destruct (cur_remote s) as [d|] eqn:C; [|destruct Hr]. eapply offer_start_covers_cur; eauto.
+  - destruct (pend_remote s) as [d|] eqn:C; [|destruct Hr]. eapply offer_start_covers_pend; eauto.
+Qed.
+
+(* ... and from the mid of every transceiver, wherever it stands in the list *)
+Lemma fresh_mid_not_a_transceiver_mid_lemma s i t t' u :
+  offer_nowrap s = true ->
+  nth_error (trs s) i = Some t -> t_mid t = "" ->
+  nth_error (trs (offer_alloc s)) i = Some t' ->
+  In u (trs s) -> t_mid t' <> t_mid u.
+Proof.
+  intros Hnw Hn Hunset Hn' Hu. rewrite offer_alloc_trs in Hn'.
+  eapply alloc_mids_fresh; eauto.
+  intros n Hnum. eapply offer_start_covers_trs; eauto.
 Qed.
 
 (* ---------- witnesses ---------- *)
@@ -539,12 +514,13 @@ Lemma wit_c09_local_data :
     [[(KApplication, Some "0")]; [(KAudio, Some "0"); (KApplication, Some "1")]].
 Proof. vm_compute. reflexivity. Qed.
 
-(* remote offer [audio 40, message 41] pending; AddTransceiver; CreateOffer: fresh mid "41" *)
-Definition wit_pending : list op :=
+(* remote offer [audio 40, message 41] pending; AddTransceiver; CreateOffer: before
+   the repair of the numbering loop the fresh mid was "41"; now it is "42" *)
+Definition was_pending : list op :=
   [SetRemote TOffer (rd [rs KAudio "40" (Some Sendrecv); rs KOther "41" (Some Sendonly)] "BUNDLE 40 41");
    AddTransceiver MVideo Recvonly; CreateOffer].
-Lemma wit_c09_pending :
-  gen_kind_mids wit_pending = [[(KAudio, Some "40"); (KVideo, Some "41")]].
+Lemma was_pending_now :
+  gen_kind_mids was_pending = [[(KAudio, Some "40"); (KVideo, Some "42")]].
 Proof. vm_compute. reflexivity. Qed.
 
 (* premises of the extension lemma on a concrete renegotiation *)
